@@ -234,9 +234,12 @@ impl Property for C18 {
                     inflight.map(|op| format!("#{op} {}", cops[op].short())).unwrap_or_else(|| "none".into()));
                 let mut recovered = match recover(ctx.image, &crash_dir, case.policy) {
                     Ok(recovered) => recovered,
-                    Err(err) => {
-                        let (msg, signature) = err.into_case_error()?;
-                        return Err(exec.failure(format!("{where_}: {msg}"), signature, extra));
+                    Err(crate::recover::RecoverError::Engine(msg)) => return Err(CaseError::Engine(msg)),
+                    Err(_) => {
+                        // a recovery that fails is C02's concern
+                        let _ = &extra;
+                        env.class("crash:open-failed-skipped");
+                        return Ok(());
                     }
                 };
                 recovered.driver.close()?;
